@@ -873,6 +873,9 @@ func (a *Act) sortCall(st *State, callee *ssa.Function, com *ssa.CallCommon, pos
 		// allocation, indices outside the slice - keeps its value
 		a.u.Fact(fmt.Sprintf("(forall ((r Ref)) (! (=> (not (and (= (rid r) (rid (sarr %s))) ((_ is pelem) (rpath r)) (= (pe_rest (rpath r)) (rpath (sarr %s))) (<= (soff %s) (pe_idx (rpath r))) (< (pe_idx (rpath r)) (+ (soff %s) %s)))) (= (select %s r) (select %s r))) :pattern ((select %s r))))", s, s, s, s, n, nh, old, nh))
 		a.u.Fact(fmt.Sprintf("(forall ((i Int)) (! (=> (and (<= 0 i) (< i %s)) (= (select %s (saddr %s i)) (select %s (saddr %s (select %s i))))) :pattern ((select %s (saddr %s i)))))", n, nh, s, old, s, perm, nh, s))
+		// ... and the converse direction (a consequence of the two facts above, stated so that a use of an OLD element
+		// finds its new place): old[j] = new[perminv[j]]
+		a.u.Fact(fmt.Sprintf("(forall ((j Int)) (! (=> (and (<= 0 j) (< j %s)) (and (<= 0 (select %s j)) (< (select %s j) %s) (= (select %s (saddr %s j)) (select %s (saddr %s (select %s j)))))) :pattern ((select %s (saddr %s j)))))", n, inv, inv, n, old, s, nh, s, inv, old, s))
 		st.setHeap(lh.name, lh.sort, nh)
 	}
 	a.top.lastPerm, a.top.lastPermInv = perm, inv
